@@ -16,14 +16,14 @@ import (
 // ---- raw HTTP/1.1 client: what is really on the client socket ----
 
 type wireResp struct {
-	Interim  []int             // 1xx status codes seen before the final response
-	InterimH []http.Header     // their headers
-	Status   int               // final status
-	Header   http.Header       // final header block
-	Framing  string            // "cl" | "chunked" | "close" | "none"
-	Body     []byte            // de-chunked body bytes as received
-	Segments []int             // cumulative body length at each read that returned data (arrival pattern)
-	Trunc    bool              // connection ended before the declared length / final chunk
+	Interim  []int         // 1xx status codes seen before the final response
+	InterimH []http.Header // their headers
+	Status   int           // final status
+	Header   http.Header   // final header block
+	Framing  string        // "cl" | "chunked" | "close" | "none"
+	Body     []byte        // de-chunked body bytes as received
+	Segments []int         // cumulative body length at each read that returned data (arrival pattern)
+	Trunc    bool          // connection ended before the declared length / final chunk
 	Err      string
 }
 
@@ -34,6 +34,11 @@ func rawExchange(addr string, reqBytes []byte, method string, timeout time.Durat
 
 // rawExchangeP additionally reports the number of body bytes received so far (arrival of flushed segments)
 func rawExchangeP(addr string, reqBytes []byte, method string, timeout time.Duration, progress func(n int)) wireResp {
+	return rawExchangeGated(addr, reqBytes, method, timeout, progress, len(reqBytes), nil)
+}
+
+// rawExchangeGated sends the first split bytes of the request, waits for the gate, then sends the rest
+func rawExchangeGated(addr string, reqBytes []byte, method string, timeout time.Duration, progress func(n int), split int, gate <-chan struct{}) wireResp {
 	var out wireResp
 	if progress == nil {
 		progress = func(int) {}
@@ -45,9 +50,18 @@ func rawExchangeP(addr string, reqBytes []byte, method string, timeout time.Dura
 	}
 	defer conn.Close()
 	conn.SetDeadline(time.Now().Add(timeout))
-	if _, err := conn.Write(reqBytes); err != nil {
+	if _, err := conn.Write(reqBytes[:split]); err != nil {
 		out.Err = err.Error()
 		return out
+	}
+	if split < len(reqBytes) {
+		if gate != nil {
+			<-gate
+		}
+		if _, err := conn.Write(reqBytes[split:]); err != nil {
+			out.Err = err.Error()
+			return out
+		}
 	}
 	br := bufio.NewReader(conn)
 	for {
